@@ -275,7 +275,35 @@ def rkey_named_keys_are_json_strings(ctx):
     return c17.w6_runtime_key_encoding(ctx)
 
 
-LIB_RULES = [rkey_named_keys_are_json_strings, r1_rollback, r2_build, r3_impls, r4_batch_builder, r5_builders_wrap_their_own_kind]
+def rmacro_rpc_params_reports_failures(ctx):
+    """`an insert that fails reports an error`: the rpc_params! macro (analysed at its use sites in the corpus) inserts every
+    argument once and does not continue past a failed insert - the Err arm of each ArrayParams::insert never reaches the
+    function's return (today: it panics with the parameter's name). A discarded insert result silently drops the value and
+    shifts the following ones one position to the left."""
+    F, R = ctx.F, ctx.R
+    n = 0
+    for b in F.find(r"^verif_corpus::uses_rpc_params_\d+$"):
+        R.fn(b)
+        want = int(b.path.rsplit("_", 1)[1])
+        ins = b.calls_to(r"params::ArrayParams::insert$")
+        R.check(len(ins) == want, "C20.MACRO", "%s:one-insert-per-argument" % b.path.split("::")[-1], "rpc_params! with %d arguments performs %d inserts" % (want, want), "rpc_params! with %d arguments performs %d inserts" % (want, len(ins)), "%s:%d" % (b.file, b.lo))
+        exits = {bi for bi, blk in enumerate(b.blocks) if blk["term"] and blk["term"]["t"] == "return"}
+        for k, c in enumerate(sorted(ins, key=lambda c: c.bb)):
+            n += 1
+            errs = [arms["1"] for sb, arms, other in flow.switch_on(b, c.dest["l"]) if arms.get("1") is not None] if c.dest is not None else []
+            ok = bool(errs) and all(not ((b.reach_from(t) | {t}) & exits) for t in errs)
+            R.check(ok, "C20.MACRO", "%s:insert#%d-failure-not-ignored" % (b.path.split("::")[-1], k), "a failed insert does not let rpc_params! return", "rpc_params! %s of ArrayParams::insert for argument %d: a parameter that fails to serialise is dropped silently, the params are built without it and the later values move one position to the left" % ("continues after a failed" if errs else "ignores the result", k), where(c))
+    R.floor("C20.MACRO", n, 2, "ArrayParams::insert sites in rpc_params! expansions")
+
+
+def rser_request_envelope_keeps_params(ctx):
+    """what the builders produced is what goes on the wire: the request envelope's derived serialiser omits `params` only
+    when it is None (never by looking at the encoded text - an empty `[]` / `{}` is a value) (= C15.R12)"""
+    from . import c15
+    c15.r12_derived_writers_mirror_their_readers(ctx)
+
+
+LIB_RULES = [rser_request_envelope_keeps_params, rkey_named_keys_are_json_strings, r1_rollback, r2_build, r3_impls, r4_batch_builder, r5_builders_wrap_their_own_kind]
 CONFIGS_QUICK = ["libs-all", "corpus"]
 CONFIGS_THOROUGH = ["libs-all", "facade-full", "corpus"]
 
@@ -288,7 +316,7 @@ def _only(cfgs, rule):
     return run
 
 
-RULES = [_only(("libs-all", "facade-full"), r) for r in LIB_RULES] + [_only(("corpus",), rgen_generated_clients)]
+RULES = [_only(("libs-all", "facade-full"), r) for r in LIB_RULES] + [_only(("corpus",), rgen_generated_clients), _only(("corpus",), rmacro_rpc_params_reports_failures)]
 
 LEVEL_TEXT = (
     "Structural necessary conditions decided from the type-checked program: rollback on every error exit of both insert "
